@@ -8,6 +8,13 @@ from persim import gromov_hausdorff
 
 from ..core import Clause
 from ..oracles import mgh
+
+
+def _exact(ctx, DX, DY):
+    try:
+        return mgh.exact(DX, DY)
+    except mgh.Budget:
+        ctx.skip("exact oracle exceeded its node budget")
 from . import _graph as G
 
 RULE = ("Connected graphs of 1..7 vertices in every container / sparsity format (nested list, dense array, csr/csc/coo/lil matrix, csr_array) x "
@@ -20,6 +27,7 @@ ASSUMPTIONS = [
 ]
 
 fmt = st.sampled_from(G.FORMATS)
+orient = st.sampled_from([False, True, "permuted"])
 
 
 def gh(ctx, seed, *args, **kw):
@@ -38,14 +46,14 @@ def bracket_ok(ctx, lb, ub, true, what):
 
 @st.composite
 def s_formats(draw):
-    return {"g": draw(G.connected_graph(1, 7)), "h": draw(G.connected_graph(1, 7)), "seed": draw(st.integers(0, 2 ** 32 - 1)),
-            "fg": draw(fmt), "fh": draw(fmt), "sg": draw(st.booleans()), "sh": draw(st.booleans())}
+    return {"g": draw(G.connected_graph(1, 9)), "h": draw(G.connected_graph(1, 9)), "seed": draw(st.integers(0, 2 ** 32 - 1)),
+            "fg": draw(fmt), "fh": draw(fmt), "sg": draw(orient), "sh": draw(orient)}
 
 
 def check_formats2(case, ctx):
     g, h = case["g"], case["h"]
-    true = mgh.exact(G.dist(g), G.dist(h))
-    ctx.label("fmt:" + case["fg"], "fmt:" + case["fh"], "symmetric" if case["sg"] or case["sh"] else "upper")
+    true = _exact(ctx, G.dist(g), G.dist(h))
+    ctx.label("fmt:" + case["fg"], "fmt:" + case["fh"], "orient:%s" % case["sg"], "orient:%s" % case["sh"])
     complete = len(g["edges"]) == g["n"] * (g["n"] - 1) // 2
     ctx.nontrivial(g["n"] >= 3 and not complete and (case["fg"] != "csr_matrix" or case["sg"]))
     ref, w0 = gh(ctx, case["seed"], G.adjacency(g, "dense"), G.adjacency(h, "dense"))
@@ -61,7 +69,7 @@ def check_formats2(case, ctx):
 def s_relabel(draw):
     g = draw(G.connected_graph(2, 7))
     h = draw(G.connected_graph(1, 7))
-    return {"g": g, "h": h, "perm": draw(st.permutations(list(range(g["n"])))), "seed": draw(st.integers(0, 2 ** 32 - 1)), "fg": draw(fmt), "sg": draw(st.booleans())}
+    return {"g": g, "h": h, "perm": draw(st.permutations(list(range(g["n"])))), "seed": draw(st.integers(0, 2 ** 32 - 1)), "fg": draw(fmt), "sg": draw(orient)}
 
 
 def check_relabel(case, ctx):
@@ -69,7 +77,7 @@ def check_relabel(case, ctx):
     if sorted(case["perm"]) != list(range(g["n"])):
         ctx.skip("malformed permutation (shrinker)")
     g2 = G.relabel(g, case["perm"])
-    true = mgh.exact(G.dist(g), G.dist(h))
+    true = _exact(ctx, G.dist(g), G.dist(h))
     ctx.nontrivial(g["n"] >= 3 and case["perm"] != sorted(case["perm"]))
     out, _ = gh(ctx, case["seed"], G.adjacency(g2, case["fg"], case["sg"]), G.adjacency(h, "dense"))
     bracket_ok(ctx, out[0], out[1], true, "relabelled input")
@@ -79,7 +87,7 @@ def check_relabel(case, ctx):
 def s_collection(draw):
     k = draw(st.integers(2, 4))
     return {"graphs": [draw(G.connected_graph(1, 6)) for _ in range(k)], "fmts": [draw(fmt) for _ in range(k)],
-            "syms": [draw(st.booleans()) for _ in range(k)], "seed": draw(st.integers(0, 2 ** 32 - 1))}
+            "syms": [draw(orient) for _ in range(k)], "seed": draw(st.integers(0, 2 ** 32 - 1))}
 
 
 def check_collection(case, ctx):
@@ -99,7 +107,7 @@ def check_collection(case, ctx):
     Ds = [G.dist(g) for g in gs]
     for i in range(k):
         for j in range(i + 1, k):
-            bracket_ok(ctx, lbs[i, j], ubs[i, j], mgh.exact(Ds[i], Ds[j]), "collection entry [%d,%d]" % (i, j))
+            bracket_ok(ctx, lbs[i, j], ubs[i, j], _exact(ctx, Ds[i], Ds[j]), "collection entry [%d,%d]" % (i, j))
 
 
 @st.composite
@@ -114,7 +122,7 @@ def s_disconnected(draw):
         off += c["n"]
     perm = draw(st.permutations(list(range(n))))
     g = G.relabel({"n": n, "edges": edges}, perm)
-    return {"g": g, "h": draw(G.connected_graph(1, 6)), "seed": draw(st.integers(0, 2 ** 32 - 1)), "fg": draw(fmt), "sg": draw(st.booleans()),
+    return {"g": g, "h": draw(G.connected_graph(1, 6)), "seed": draw(st.integers(0, 2 ** 32 - 1)), "fg": draw(fmt), "sg": draw(orient),
             "first": draw(st.booleans())}
 
 
@@ -135,7 +143,7 @@ def check_disconnected(case, ctx):
     cands = []
     for c in largest:
         n2, e2 = mgh.induced(g["n"], g["edges"], c)
-        cands.append(mgh.exact(mgh.bfs_distances(n2, [tuple(e) for e in e2]), DH))
+        cands.append(_exact(ctx, mgh.bfs_distances(n2, [tuple(e) for e in e2]), DH))
     lb, ub = float(out[0]), float(out[1])
     ok = any(lb <= t <= ub for t in cands)
     ctx.require(lb >= 0 and lb <= ub and float(2 * lb).is_integer() and float(2 * ub).is_integer(), "malformed_bounds", lambda: "lb=%r ub=%r" % (lb, ub))
@@ -155,7 +163,7 @@ def VALID_DEFAULT(case):
 
 
 CLAUSES = [
-    Clause("formats", s_formats(), check_formats2, quick=2500, thorough=30000,
+    Clause("formats", s_formats(), check_formats2, quick=5000, thorough=50000,
            rule="the same pair in generated formats / symmetry vs the dense upper-triangular form under the same RNG seed: both bracket the exact "
                 "distance and the lower bounds are identical; non-trivial = >= 3 vertices, non-complete, and a non-CSR format or a symmetric adjacency"),
     Clause("relabelled", s_relabel(), check_relabel, quick=1500, thorough=20000,
